@@ -160,6 +160,8 @@ class Tiles:
         idx = iyx_(idx)
 
         def _sz(i: int, n: int, tile_sz: int, total_sz: int) -> int:
+            if isinstance(i, np.integer):
+                i = int(i)  # ``i * tile_sz`` must not be computed in a fixed-width type
             if i < 0:  # numpy style index from the right
                 i = n + i
             if 0 <= i < n - 1:  # not edge tile
@@ -203,7 +205,8 @@ class Tiles:
         if y < 0 or y >= NY or x < 0 or x >= NX:
             raise IndexError()
         ny, nx = self.tile_shape((0, 0)).yx
-        return (y // ny, x // nx)
+        # plain ints whatever integer type the pixel coordinates came in
+        return (int(y // ny), int(x // nx))
 
     def __dask_tokenize__(self):
         return (
@@ -272,6 +275,8 @@ class VariableSizedTiles:
 
         def _sz(a: np.ndarray, i: int) -> int:
             n = len(a) - 1
+            if isinstance(i, np.integer):
+                i = int(i)  # ``i + 1`` of ``np.uint8(255)`` is 0
             if i < 0:  # numpy style index from the right
                 i = n + i
             if 0 <= i < n:
